@@ -220,7 +220,11 @@ def find_sites(text):
 
     visit(tree, False)
     found.sort(key=lambda n: (n.lineno, n.col_offset))
-    lines = text.splitlines(keepends=True)
+    # physical lines as the Python tokenizer / ast count them: only \n, \r\n and \r end a line
+    # (str.splitlines would also split at \x0b \x0c \x1c-\x1e \x85 \u2028 \u2029)
+    import re
+
+    lines = re.findall(r"[^\r\n]*(?:\r\n|\r|\n)|[^\r\n]+$", text)
     # byte-exact offsets: ast col_offset is in utf8 bytes
     line_start = [0]
     bl = [l.encode("utf-8") for l in lines]
